@@ -231,8 +231,20 @@ def structural_probes():
     for spelling in ("huber", "Huber", "HUBER"):
         for ha, e in ((0.0, "rej"), (-1.0, "rej"), (1e-9, "ok")):
             out.append((f"murphy_score functional={spelling!r} huber_a={ha}", lambda sp=spelling, h=ha: C.murphy_score(f, o, [1.0], functional=sp, alpha=0.5, huber_a=h), e))
-    for w, e in (((0, 1), "rej"), ((1, 0), "rej"), ((1, 1), "ok"), ((3, 4), "ok"), ((4, 4), "rej"), ((3, 5), "rej")):
-        out.append((f"fss window_size={w} on a 3x4 field", lambda w=w: fss_2d_single_field(fld, fld, event_threshold=0.5, window_size=w), e))
+    # every window (h, w) with 0 <= h <= 5, 0 <= w <= 6 on a 3x4 field, for the three public entry points and both padding
+    # modes: accepted exactly when 1 <= h <= 3 and 1 <= w <= 4 (each side checked on its own)
+    from scores.spatial import fss_2d, fss_2d_binary
+    fld_da = xr.DataArray(fld, dims=["y", "x"])
+    for h_ in range(0, 6):
+        for w_ in range(0, 7):
+            e = "ok" if (1 <= h_ <= 3 and 1 <= w_ <= 4) else "rej"
+            for pad in (False, True):
+                out.append((f"fss_2d_single_field window_size=({h_}, {w_}) zero_padding={pad} on a 3x4 field",
+                            lambda w=(h_, w_), p=pad: fss_2d_single_field(fld, fld, event_threshold=0.5, window_size=w, zero_padding=p), e))
+                out.append((f"fss_2d window_size=({h_}, {w_}) zero_padding={pad} on a 3x4 field",
+                            lambda w=(h_, w_), p=pad: fss_2d(fld_da, fld_da, event_threshold=0.5, window_size=w, spatial_dims=("y", "x"), zero_padding=p), e))
+                out.append((f"fss_2d_binary window_size=({h_}, {w_}) zero_padding={pad} on a 3x4 field",
+                            lambda w=(h_, w_), p=pad: fss_2d_binary(fld_da > 0.5, fld_da > 0.5, window_size=w, spatial_dims=("y", "x"), zero_padding=p), e))
     for h, e in ((0, "rej"), (1, "ok"), (4, "ok"), (5, "rej"), (1.5, "rej"), (-1, "rej")):
         out.append((f"diebold_mariano h={h} (series length 5)", lambda h=h: diebold_mariano(ts.assign_coords(l=[1], h=("l", [h])), "l", "h", method="HLN"), e))
     for ptv, e in ((0.0, "rej"), (1.0, "rej"), (1e-9, "ok"), (1 - 1e-9, "ok")):
